@@ -493,6 +493,27 @@ func build(seed uint64, profile string) *built {
 			g.optID++
 			g.put(2, &dns.OPT{Hdr: dns.RR_Header{Name: ".", Rrtype: dns.TypeA, Class: 1232, Ttl: 0x8000}, Option: g.ednsOptions()}, "x"+strconv.Itoa(g.optID))
 		}
+	case "cdn":
+		// many records under one long owner name: far past the pooled buffer uncompressed,
+		// small once compressed (the declined-but-fits-a-datagram class), and the sizes in between
+		owner := longName(r, vlib.Pick(r, []int{60, 100, 140, 200}), "customer-zone.example.com.")
+		m.Question = []dns.Question{{Name: owner, Qtype: dns.TypeA, Qclass: dns.ClassINET}}
+		m.Response = true
+		m.Compress = r.Chance(5, 6)
+		n := vlib.Pick(r, []int{3, 10, 20, 30, 36, 40, 50, 60, 80})
+		for i := 0; i < n; i++ {
+			if r.Chance(4, 5) {
+				g.put(0, &dns.A{Hdr: dns.RR_Header{Name: owner, Rrtype: dns.TypeA, Class: dns.ClassINET, Ttl: 300}, A: net.IPv4(192, 0, 2, byte(i+1)).To4()}, "a")
+			} else {
+				g.put(0, &dns.AAAA{Hdr: dns.RR_Header{Name: owner, Rrtype: dns.TypeAAAA, Class: dns.ClassINET, Ttl: 300}, AAAA: ip6(r)}, "a")
+			}
+		}
+		if r.Chance(1, 2) {
+			g.put(1, &dns.NS{Hdr: dns.RR_Header{Name: "customer-zone.example.com.", Rrtype: dns.TypeNS, Class: dns.ClassINET, Ttl: 60}, Ns: "ns1." + owner}, "a")
+		}
+		if r.Chance(2, 3) {
+			g.newOPT(2)
+		}
 	case "bigopt":
 		// beyond the pooled buffer, so PackClone takes libraryPackImmutable: OPT (often
 		// aliased into other sections) whose TTL the library's Pack would rewrite
